@@ -781,7 +781,8 @@ def krylov(model, sfield, efield, var):
         pre = "\n"
     pre += "   > "
     if i < 0:
-        if var.exit_message == '':
+        # Note: 'CONVERGED' can only stem from the multigrid preconditioner.
+        if var.exit_message in ['', 'CONVERGED']:
             var.exit_message = f"Error in {var.sslsolver} ({i})"
         pre = "\n* ERROR   :: "
     elif i > 0:
